@@ -20,7 +20,7 @@ TRUSTED = [
 def run(ck: Check):
     ck.trusted = TRUSTED
     ck.rule = ("two-process histories: process A (seed s1) builds a model (dense random / dense unique / conv2d random-unique+dense / conv2d "
-               "random Walsh / conv3d), saves state_dict and a compiled library (num_bits in {8,16,32,64}); process B (seed s2, RNG advanced by "
+               "random Walsh / conv3d / dense with 40000 inputs), saves state_dict and a compiled library (num_bits in {8,16,32,64}); process B (seed s2, RNG advanced by "
                "a random amount) rebuilds the layers with the same constructor arguments, loads the state (once into a fresh model, once into a model that was already run in training and eval mode, with no "
                "mode switch afterwards) and the library and evaluates a 100-row probe batch (longer than a word); outputs must be identical to A's. Non-trivial: seed s2 != s1. "
                "Distinct = canonical JSON of (kind, model id, seeds, num_bits).")
@@ -28,7 +28,7 @@ def run(ck: Check):
     ck.translate("LibIO", t_libio.gen_libio)
     ck.prove("Props/C15", THEOREMS)
     rng = ck.rng
-    kinds = ["dense", "dense-unique", "conv2d", "conv2d-random", "conv3d"]
+    kinds = ["dense", "dense-unique", "conv2d", "conv2d-random", "conv3d", "dense-wide"]
     reps = 1 if ck.tier == "quick" else 4
     plan = []
     for rep in range(reps):
@@ -51,7 +51,14 @@ def run(ck: Check):
         if [[round(v * tau) for v in row] for row in a["eval"]] != a["compiled"]:
             ck.disagree("compiled library differs from the model already in the saving process", case, signature={"what": "compile", "kind": p["kind"]})
         for warm in (False, True):
-            b_jobs.append(dict(p, kind_of_job="reload", input_shape=a["input_shape"], k=a["k"], warm=warm))
+            job = dict(p, kind_of_job="reload", input_shape=a["input_shape"], k=a["k"], warm=warm)
+            if warm:
+                # the reloading process first loads and calls ANOTHER saved library (the previous successfully saved one)
+                prev = next((j for j in range(i - 1, -1, -1) if a_res[j]["done"] and a_res[j]["steps"]), None)
+                if prev is not None:
+                    pa = a_res[prev]["steps"][0]
+                    job["preload"] = dict(lib_path=plan[prev]["lib_path"], input_shape=pa["input_shape"], k=pa["k"], W=plan[prev]["W"])
+            b_jobs.append(job)
             idx.append((i, warm))
     b_res = subproc.run_jobs(ck.scratch, b_jobs, workers=6)
     for (i, warm), r in zip(idx, b_res):
